@@ -21,8 +21,9 @@ func init() {
 			"(R7) size caps are never silent: after io.CopyN copied its full cap (no error) success is returned only across a further read that found io.EOF, and no io.LimitReader feeds a content-producing or publishing step. " +
 			"(R8 = part of R5) the error of a content step is examined on every path, not overwritten by a later assignment first; (R9) UnpackArchive holds the resource lock across the extraction (concurrent unpack requests share the temporary directory). " +
 			"(R10) every os.OpenFile with O_CREATE in the covered packages also carries O_TRUNC, O_EXCL or O_APPEND (a shorter new content must not keep an older tail). " +
+			"(R11) makeRequest hands out a response only across StatusCode == 200 (a 206 Partial Content would be published as the whole file). " +
 			"NOT decided: file-system semantics, crash states, concurrent readers, the run-time choice of a same-mount temp directory.",
-		Rules: []ruleFn{c17R1, c17R2, c17R3, c17R4, c17R5, c17R6, c17R7, c17R9, c17R10},
+		Rules: []ruleFn{c17R1, c17R2, c17R3, c17R4, c17R5, c17R6, c17R7, c17R9, c17R10, c17R11},
 	})
 }
 
